@@ -7,7 +7,7 @@ patch=$(readlink -f "$1"); prop=$2; shift 2
 wt=$(mktemp -d /tmp/trywt-XXXXXX); out=$(mktemp -d /tmp/tryout-XXXXXX)
 rmdir $wt
 git -C /repo worktree add --detach $wt HEAD >/dev/null 2>&1 || { echo "worktree failed"; exit 9; }
-if ! git -C $wt apply "$patch"; then echo "patch does not apply"; git -C /repo worktree remove --force $wt; rm -rf $out; exit 9; fi
+if ! git -C $wt apply "$patch" 2>/dev/null && ! git -C $wt apply -3 "$patch"; then echo "patch does not apply"; git -C /repo worktree remove --force $wt; rm -rf $out; exit 9; fi
 cd /verif && EXABGP_SRC=$wt/src VERIF_OUT=$out ./check "$prop" "$@" 2>&1 | grep -v "^# C.. tier" | tail -4
 rc=${PIPESTATUS[0]}
 if [ -n "${KEEP_REPLAY:-}" ]; then mkdir -p /tmp/kept-replays; cp $out/replays/* /tmp/kept-replays/ 2>/dev/null; fi
